@@ -26,8 +26,8 @@ Local Open Scope N_scope.
 
 (** ** Headline: for every well-formed stack (any depth and shape) and every clean history (any length), every
     operation delivers exactly per the specification above.  [Clean] (= no operation leaves an [enabled] pass
-    without its own event / new_span) excludes the known finding F3, refuted below.  [HintSound]: the global
-    max level handed to the macros is sound (static summaries are property C08). *)
+    without its own event / new_span) excludes the known finding F3, refuted below.  [HintSound]: the static
+    summaries handed to the macros are sound (property C08: the global max level; no EnvFilter in the F12 situation). *)
 Theorem C07_isolation : forall c mx pool h,
   WF c -> HintSound c mx pool -> clean c mx pool h = true -> run_spec c mx pool init [] h.
 Proof. exact isolation. Qed.
@@ -86,17 +86,26 @@ Theorem C07_static_filters : forall st ch cm m,
 Proof. exact chain_accept_static. Qed.
 Print Assumptions C07_static_filters.
 
-(** ** The callsite cache is sound for every stack of the class: a registered `never` means no leaf would ever
+(** ** Stateful filters (an EnvFilter with span directives, [FEnv], also under and / or / not in either operand order): the
+    model describes what such a filter accepts as a function of the entered spans its own layer accepted; the code keeps
+    state for that, fed in [callsite_enabled], which is right only if every operand of a combinator is told about every
+    callsite.  The description of combinator.rs regenerated on every run says it is (seeded change C07-E breaks [or_asks_both]). *)
+Theorem C07_operands_told :
+  TVGen.Gen_stack.or_asks_both = true /\ TVGen.Gen_stack.and_skips_only_after_never = true /\ TVGen.Gen_stack.not_asks = true.
+Proof. exact operands_told. Qed.
+Print Assumptions C07_operands_told.
+
+(** ** The callsite cache is sound for every stack of the class ([F12Free]: finding F12 of property C08 excluded): a registered `never` means no leaf would ever
     be notified, `always` that every global and every per-layer filter accepts whatever the context (so skipping
     [enabled] changes nothing) *)
 Theorem C07_interest_never_sound : forall c m,
-  coll_shape c -> fst (c_register (haspsf c) c m None) = INever ->
+  coll_shape c -> F12Free c m -> fst (c_register (haspsf c) c m None) = INever ->
   forall st r, In r (coll_recs c) -> globals_accept c st m && chain_accept st 0 (snd r) m = false.
 Proof. exact register_never_sound. Qed.
 Print Assumptions C07_interest_never_sound.
 
 Theorem C07_interest_always_sound : forall c m,
-  coll_shape c -> fst (c_register (haspsf c) c m None) = IAlways ->
+  coll_shape c -> F12Free c m -> fst (c_register (haspsf c) c m None) = IAlways ->
   forall st, globals_accept c st m = true /\ forall r, In r (coll_recs c) -> chain_accept st 0 (snd r) m = true.
 Proof. exact register_always_sound. Qed.
 Print Assumptions C07_interest_always_sound.
@@ -156,6 +165,15 @@ Example C07_climb_example :
   (let out := nth 4 (run_obs (build climb_stack) 5 pool45 climb_history) [] in
    chain_seen 1 out = [([2], [2], [2; 3])] /\ chain_seen 2 out = [([2; 1], [2; 1], [1; 2; 3])]).
 Proof. exact climb_example. Qed.
+
+(** INFO.or(span directive) and (span directive).or(INFO) on two leaves: the DEBUG event is delivered to both inside the span only *)
+Example C07_env_example :
+  WF (build env_stack) /\ HintSound (build env_stack) 5 pool45 /\ clean (build env_stack) 5 pool45 env_history = true /\
+  (let outs := run_obs (build env_stack) 5 pool45 env_history in
+   deliveredb 1 (nth 0 outs []) = false /\ deliveredb 2 (nth 0 outs []) = false /\
+   deliveredb 1 (nth 3 outs []) = true /\ deliveredb 2 (nth 3 outs []) = true /\
+   deliveredb 1 (nth 5 outs []) = false /\ deliveredb 2 (nth 5 outs []) = false).
+Proof. exact env_example. Qed.
 
 (** the F3 stack with an event where the probe was: clean, and the leaf is notified *)
 Example C07_two_nonvacuous :
